@@ -26,7 +26,7 @@ fn histories2(nb: usize) -> Vec<Vec<(Vec<i32>, Vec<i32>)>> {
 fn smoke(p: &ProgInfo, nb: usize) -> Stats {
     let mut st = Stats::new();
     let mut first_bad = false;
-    let mut one = |st: &mut Stats, input: Value, r: Result<Vec<Vec<i32>>, String>| {
+    let mut one = |st: &mut Stats, input: Value, r: Result<Vec<Vec<i32>>, String>, minimal: &dyn Fn() -> Value| {
         st.eval();
         st.nontrivial(&(p.id, input.to_string()));
         st.outcome(&format!("{r:?}"));
@@ -34,10 +34,17 @@ fn smoke(p: &ProgInfo, nb: usize) -> Stats {
         if let Err(e) = r {
             if !first_bad {
                 first_bad = true;
+                // canonical case: the shortest prefix of the first failing history that still
+                // panics (this is also the re-execution of the failing case)
+                let min = minimal();
+                if min.is_null() {
+                    println!("MACHINERY-ERROR: C41 {} {} panicked once and then passed", p.id, input);
+                    std::process::exit(2);
+                }
                 st.violation(
-                    format!("C41:run:{}:{}", p.id, input),
-                    format!("generated dataflow of {} panicked on {}: {}", p.id, input, e),
-                    json!({"kind": "run", "program": p.id, "input": input}),
+                    format!("C41:run:{}:{}", p.id, min),
+                    format!("generated dataflow of {} panicked on {}: {}", p.id, min, e),
+                    json!({"kind": "run", "program": p.id, "input": min}),
                 );
             } else {
                 st.violations_total += 1;
@@ -48,7 +55,15 @@ fn smoke(p: &ProgInfo, nb: usize) -> Stats {
         Runner::A1(f) => {
             for h in histories(nb) {
                 let r = catch(|| f(&h));
-                one(&mut st, json!({"a": h}), r);
+                let minimal = || {
+                    for n in 1..=h.len() {
+                        if catch(|| f(&h[..n])).is_err() {
+                            return json!({"a": h[..n]});
+                        }
+                    }
+                    Value::Null
+                };
+                one(&mut st, json!({"a": h}), r, &minimal);
             }
         }
         Runner::A2(f) => {
@@ -56,7 +71,15 @@ fn smoke(p: &ProgInfo, nb: usize) -> Stats {
                 let r = catch(|| f(&h));
                 let a: Vec<_> = h.iter().map(|x| x.0.clone()).collect();
                 let b: Vec<_> = h.iter().map(|x| x.1.clone()).collect();
-                one(&mut st, json!({"a": a, "b": b}), r);
+                let minimal = || {
+                    for n in 1..=h.len() {
+                        if catch(|| f(&h[..n])).is_err() {
+                            return json!({"a": a[..n], "b": b[..n]});
+                        }
+                    }
+                    Value::Null
+                };
+                one(&mut st, json!({"a": a, "b": b}), r, &minimal);
             }
         }
     }
